@@ -40,7 +40,7 @@ CONTRACTS = [
         SQ + "add_column_lineage",
         props=["C06"],
         params={"src": "Column", "tgt": "Column"},
-        requires={"target_has_exactly_one_owner": "len(tgt._parent) == 1", "owners_are_objects": "None not in src._parent and None not in tgt._parent"},
+        requires={"target_has_exactly_one_owner": "len(tgt._parent) == 1", "owners_are_objects": "None not in src._parent and None not in tgt._parent", "owners_are_relations_not_columns": "forall(lambda p: implies(p in src._parent or p in tgt._parent, not isinstance(p, Column)))"},
         ensures={
             "direct_dependency_recorded": f"gedge({G}, src, tgt) and getype({G}, src, tgt) == 'lineage'",
             "target_column_hangs_under_its_owner": f"forall(lambda p: implies(p in tgt._parent, gedge({G}, p, tgt) and getype({G}, p, tgt) == 'has_column'))",
